@@ -346,3 +346,13 @@ func ContextWithTimeout(parent context.Context, d time.Duration) (context.Contex
 }
 
 var ErrSimAborted = errors.New("simrt: aborted")
+
+// AtSched runs fn in scheduler context (it must not yield) after d of
+// simulated time. For sim-side packages.
+func AtSched(d time.Duration, fn func()) {
+	s := active
+	if s == nil || s.dead() {
+		return
+	}
+	s.addTimer(d, fn)
+}
